@@ -2,6 +2,7 @@ package main
 
 import (
 	"go/ast"
+	"go/token"
 	"go/types"
 )
 
@@ -82,31 +83,54 @@ func init() {
 				if fd.Body == nil {
 					return
 				}
-				ast.Inspect(fd.Body, func(nd ast.Node) bool {
-					as, ok := nd.(*ast.AssignStmt)
-					if !ok {
-						return true
+				defs := localDefs(info, fd.Body)
+				// isCapture: <x>.F, or a pointer to it kept in a local defined once (q := &<x>.F; q.max = …)
+				isCapture := func(e ast.Expr) bool {
+					e = defs.resolve1(info, e)
+					if u, ok := e.(*ast.UnaryExpr); ok && u.Op == token.AND {
+						e = unparen(u.X)
 					}
-					for i, l := range as.Lhs {
-						se, ok := unparen(l).(*ast.SelectorExpr)
-						if !ok || se.Sel.Name != "max" {
-							continue
+					inner, ok := e.(*ast.SelectorExpr)
+					return ok && info.ObjectOf(inner.Sel) == types.Object(cf.field)
+				}
+				store := func(at ast.Node, rhs ast.Expr) {
+					stores++
+					n++
+					if v, isC := constInt(info, rhs); rhs != nil && isC && v == 0 {
+						c.OK("R01j", key+".max@"+fd.Name.Name, at.Pos(), "capture buffer %s is unbounded (max = 0)", key)
+					} else {
+						bad++
+						c.Viol("R01j", key+".max@"+fd.Name.Name, at.Pos(), "%s gives the capture buffer %s a back-pressure limit (%s): %s.Write* write to it synchronously and nothing reads it until the writer has finished, so the first write past the limit waits for ever", fd.Name.Name, key, c.src(at), cf.owner.Obj().Name())
+					}
+				}
+				ast.Inspect(fd.Body, func(nd ast.Node) bool {
+					switch x := nd.(type) {
+					case *ast.AssignStmt:
+						for i, l := range x.Lhs {
+							se, ok := unparen(l).(*ast.SelectorExpr)
+							if !ok || se.Sel.Name != "max" || !isCapture(se.X) {
+								continue
+							}
+							var rhs ast.Expr
+							if len(x.Rhs) == len(x.Lhs) {
+								rhs = x.Rhs[i]
+							}
+							store(x, rhs)
 						}
-						inner, ok := unparen(se.X).(*ast.SelectorExpr)
-						if !ok || info.ObjectOf(inner.Sel) != types.Object(cf.field) {
-							continue
+					case *ast.KeyValueExpr:
+						// Owner{F: Stdin{max: …}}
+						k, ok := x.Key.(*ast.Ident)
+						if !ok || info.ObjectOf(k) != types.Object(cf.field) {
+							return true
 						}
-						stores++
-						n++
-						var rhs ast.Expr
-						if len(as.Rhs) == len(as.Lhs) {
-							rhs = as.Rhs[i]
-						}
-						if v, isC := constInt(info, rhs); rhs != nil && isC && v == 0 {
-							c.OK("R01j", key+".max@"+fd.Name.Name, as.Pos(), "capture buffer %s is unbounded (max = 0)", key)
-						} else {
-							bad++
-							c.Viol("R01j", key+".max@"+fd.Name.Name, as.Pos(), "%s gives the capture buffer %s a back-pressure limit (%s): %s.Write* write to it synchronously and nothing reads it until the writer has finished, so the first write past the limit waits for ever", fd.Name.Name, key, c.src(as), cf.owner.Obj().Name())
+						if cl, ok := unparen(x.Value).(*ast.CompositeLit); ok {
+							for _, el := range cl.Elts {
+								if kv, ok := el.(*ast.KeyValueExpr); ok {
+									if mk, ok := kv.Key.(*ast.Ident); ok && mk.Name == "max" {
+										store(kv, kv.Value)
+									}
+								}
+							}
 						}
 					}
 					return true
